@@ -471,12 +471,16 @@ pub fn cmd_check(prop: Prop, tier: &str) -> i32 {
         envn("SMTSIM_QUICK_RUNS", 60_000)
     };
     let me = std::env::current_exe().expect("exe");
+    // batches alternate between the release build and the optimised build that keeps the crate's
+    // debug_assert!s and overflow checks: one in four in the quick tier, one in two in thorough
     let mut bins = vec![("release".to_string(), me.clone())];
-    if thorough {
-        if let Ok(p) = std::env::var("SMTSIM_CHECKED_BIN") {
-            if Path::new(&p).exists() {
-                bins.push(("checked_debug_assertions_overflow_checks".to_string(), PathBuf::from(p)));
+    if let Ok(p) = std::env::var("SMTSIM_CHECKED_BIN") {
+        if Path::new(&p).exists() {
+            if !thorough {
+                bins.push(("release".to_string(), me.clone()));
+                bins.push(("release".to_string(), me.clone()));
             }
+            bins.push(("checked_debug_assertions_overflow_checks".to_string(), PathBuf::from(p)));
         }
     }
     let plan = Plan {
@@ -647,7 +651,7 @@ pub fn cmd_check(prop: Prop, tier: &str) -> i32 {
                 ("other_counters".into(), J::Obj(other)),
                 ("components_real".into(), J::Arr(["regular_expressions", "smt_regular_expressions (thread_local MANAGER, RefCell)", "character_sets", "loop_ranges", "automata", "minimizer", "partitions", "compact_tables", "matcher", "store", "bfs_queues", "labeled_queues", "smt_strings", "std unwinding (catch_unwind)", "OS threads (one at a time)"].iter().map(|x| s(x)).collect())),
                 ("components_stubbed".into(), J::Arr(vec![])),
-                ("build_profiles".into(), J::Arr(plan.bins.iter().map(|(n, _)| s(n)).collect())),
+                ("build_profiles".into(), J::Arr({ let mut v: Vec<String> = plan.bins.iter().map(|(n, _)| n.clone()).collect(); v.dedup(); v.iter().map(|n| s(n)).collect() })),
                 ("known_findings_seen".into(), J::Int(agg.known.values().map(|x| x.0 as i64).sum())),
             ]),
         ),
